@@ -31,7 +31,7 @@ type eng struct{}
 
 func (eng) Name() string { return "snapstore" }
 func (eng) CoqRequire(mode string) string {
-	return "From RV Require Import Base.Mach Base.Bytes Model.SnapStore Corr.Check_snapstore."
+	return "From RV Require Import Base.Mach Base.Bytes Model.SnapStore Model.Publish Corr.Check_snapstore."
 }
 func (eng) CoqCaseType(mode string) string { return "Check_snapstore.case" }
 func (eng) CoqRun(mode string) string      { return "Check_snapstore.run" }
@@ -39,7 +39,7 @@ func (eng) Rule(mode string) string {
 	if mode == "c12" {
 		return "random API histories on the real Store: assemblies of 0..4 operators and 0..3 source runners (duplicate names in the lists possible), acks in random order with injected duplicates, stale/future ids, unknown senders, acks without a pending checkpoint, creations while one is pending, savepoint joins, restarts (new Store + LoadCheckpoint on the same storage) with and without a pending checkpoint, fault injection 'the Remove calls of this process never reach the storage' so that restarts find 2..6 snapshot files of several generations (listing in byte order of the names, as LocalDirectory gives), plus structured multi-generation histories (publish 1..4, restart, create). Non-trivial: at least one checkpoint published and at least one rejected/ignored ack or a restart; distinct by hash of the op list."
 	}
-	return "seg: pathSegment of boundary, small, random 64-bit and carry-pattern ids; load: real LocalDirectory holding snapshot files of random id sets (neighbouring ids around base64 alphabet-order inversions, small and huge ids), listing order and LoadCheckpoint result; sched: random schedules of pub (snapshots of 0..7 split states, some as savepoints) / release-write / release-remove / receive-notification / crash / start-from-a-savepoint over up to 4 overlapping publications from random base ids; rewind: a run with a savepoint and k further large checkpoints, a second run started from the savepoint on the same storage that reaches the same ids with smaller snapshots (snapshot files rewritten with shorter content), then a plain restart; every written snapshot file is read back and decoded. Non-trivial: (load) >= 2 ids; (sched) >= 2 publications with at least one write released out of id order or a crash with >= 2 files present; distinct by hash of the op list."
+	return "seg: pathSegment of boundary, small, random 64-bit and carry-pattern ids; load: real LocalDirectory holding snapshot files of random id sets (neighbouring ids around base64 alphabet-order inversions, small and huge ids), listing order and LoadCheckpoint result; sched: random schedules of pub (snapshots of 0..7 split states, some as savepoints) / release-write / release-remove / receive-notification / crash / start-from-a-savepoint over up to 4 overlapping publications from random base ids; rewind: a run with a savepoint and k further large checkpoints, a second run started from the savepoint on the same storage that reaches the same ids with smaller snapshots (snapshot files rewritten with shorter content), then a plain restart; every written snapshot file is read back and decoded; retain: a real dkv.DB (memory file system, 200-byte memtables) takes DKV checkpoints and receives strictly increasing retention notifications with lag 0..3 checkpoints, every handle is then opened on a copy of the file system. Non-trivial: (load) >= 2 ids; (sched) >= 2 publications with at least one write released out of id order or a crash with >= 2 files present; distinct by hash of the op list."
 }
 
 // ---------- shared pieces ----------
@@ -446,6 +446,8 @@ func execC13(c *hx.Case) (*hx.Result, error) {
 		return nil, err
 	}
 	switch first.K {
+	case "retain":
+		return execRetain(c)
 	case "seg":
 		seg, err := realSegment(first.ID)
 		if err != nil {
